@@ -211,7 +211,11 @@ pub fn decode(s: &str) -> String {
 fn bias(r: &mut Rng, h: &mut History) {
     let keys: Vec<String> = h.import.iter().map(|(k, _)| k.clone()).collect();
     for s in h.steps.iter_mut() {
-        match r.below(8) {
+        match r.below(10) {
+            // the heading is there but has no text (still being typed, or only an image): the title becomes empty
+            8 => s.1 = r.pick(&["# \n", "#\n\ntext\n", "# ![](img.png)\n\nbody\n", "# \u{a0}\n", "## \n\n[x](a)\n"]).to_string(),
+            // … and a note whose whole text goes away
+            9 => s.1 = r.pick(&["", "\n", "   \n"]).to_string(),
             0 => s.1 = "just a paragraph now\n".into(), // heading removed
             1 => s.1 = format!("# t {}\n\n| a |\n|---|\n| b |\n\n[x]({})\n\ninline [y]({}) link\n", s.0.len(), r.pick(&keys[..]), r.pick(&keys[..])), // content after a table
             2 => s.1 = "# only a heading\n".into(), // all references removed
